@@ -163,3 +163,79 @@ func C09_incl() {
 	_, hasS := data["s"]
 	sym.Assert(hasS, "sibling selection unaffected")
 }
+
+// C09_twice: two selections of the same response key in one selection set -
+// the same field, inline fragment or named fragment written twice, or one of
+// each - each with its own conditions (S): the key appears iff at least one
+// of them is included; an excluded one does not take the other with it.
+func C09_twice() {
+	var log []string
+	q := newGraph(&log, 0)
+	root := kitRoot(q)
+	vars := map[string]interface{}{}
+	decls := ""
+	usesF := false
+	one := func(n string) (text string, included bool) {
+		dirs := ""
+		included = true
+		switch sym.Choice("directives "+n, 4) {
+		case 1:
+			c := sym.Bool("skip " + n)
+			vars["s"+n] = c
+			decls += " $s" + n + ":Boolean"
+			dirs = " @skip(if:$s" + n + ")"
+			included = !c
+		case 2:
+			c := sym.Bool("include " + n)
+			if c {
+				dirs = " @include(if:true)"
+			} else {
+				dirs = " @include(if:false)"
+			}
+			included = c
+		case 3:
+			c, d := sym.Bool("skip "+n), sym.Bool("include "+n)
+			vars["i"+n] = d
+			decls += " $i" + n + ":Boolean"
+			if c {
+				dirs = " @include(if:$i" + n + ") @skip(if:true)"
+			} else {
+				dirs = " @include(if:$i" + n + ") @skip(if:false)"
+			}
+			included = sym.And(!c, d)
+		}
+		switch sym.Choice("selection kind "+n, 3) {
+		case 0:
+			return "a" + dirs, included
+		case 1:
+			return "...on Query" + dirs + "{a}", included
+		}
+		usesF = true
+		return "...F" + dirs, included
+	}
+	t1, in1 := one("1")
+	t2, in2 := one("2")
+	doc := "{s " + t1 + " " + t2 + "}"
+	if decls != "" {
+		doc = "query(" + decls + ")" + doc
+	}
+	if usesF {
+		doc += " fragment F on Query{a}"
+	}
+	sym.Observe("doc", doc)
+	res := root.ResolveString(doc, "", vars)
+	data, _ := res["data"].(map[string]interface{})
+	sym.Assert(data != nil, "data present")
+	included := sym.Or(in1, in2)
+	_, has := data["a"]
+	sym.Assert(has == included, "selection present iff included")
+	ran := false
+	for _, l := range log {
+		if l == "q.a" {
+			ran = true
+		}
+	}
+	sym.Assert(ran == included, "resolver runs iff included")
+	_, hasS := data["s"]
+	sym.Assert(hasS, "sibling selection unaffected")
+}
